@@ -37,13 +37,15 @@ CHECKS["C09"] = dict(
     ref="§4 C09")
 
 CHECKS["C19"] = dict(
-    technique="Coq proof by induction (polymorphic rows; Model/Atoms.v, Props/C19.v) + functional correspondence on real "
+    technique="Coq proof by induction (polymorphic rows; Model/Atoms.v, Proofs/AtomsProofs.v, Proofs/ComponentsProofs.v, Props/C19.v) + functional correspondence on real "
               "ase.Atoms / reinsert_atoms / search_molecules, with an independent union-find as differential oracle",
     text="Theorems for every row type, list length and duplicate-free in-range index list in any order: "
          "reinsert(delete L I, select L I, I) = L (dtype tag included); label glue: admitted components get one "
          "non-negative label each, distinct across components, everything else keeps any supplied default. Three stages of "
          "delete/slice/reinsert on real Atoms are compared row-by-row with the model; labels are compared (up to renaming) "
-         "with the model fed by independently computed components. Connected components themselves are a trusted external.",
+         "with the model. Connectivity is proved too: the model's component algorithm yields exactly the classes of the equivalence "
+         "closure of the within-cutoff pair list (C19_components_spec), and labels equal/non-negative <-> connected end to end "
+         "(C19_molecules_connected); it is evaluated in Coq on the pair list of each case. Only which pairs are within the cutoff (float geometry) is computed by the harness.",
     ref="§4 C19")
 
 CHECKS["C02"] = dict(
